@@ -111,3 +111,6 @@ U("cJSON_AddItemReferenceToArray", "cjson", "harness/cJSON_AddItemReferenceToArr
   defs=["-DVF_REF_VIEWS"], replace=["create_reference/create_reference_cv", "add_item_to_array/add_item_to_array_cv"])
 U("cJSON_AddItemReferenceToObject", "cjson", "harness/cJSON_AddItemReferenceToObject.c", enforce="cJSON_AddItemReferenceToObject", shape="U", props=["C06", "C07", "C08", "C14", "C20"], covers=3,
   defs=["-DVF_REF_VIEWS"], replace=["create_reference/create_reference_cv", "add_item_to_object", "cJSON_Delete"])
+U("replace_item_in_object", "cjson", "harness/replace_item_in_object.c", enforce="replace_item_in_object", shape="U", props=["C06", "C07", "C08", "C14", "C20"], covers=5,
+  defs=["-DVF_RVP_VIEW"], replace=["cJSON_strdup/cJSON_strdup_cv", "cJSON_free/cJSON_free_cv", "get_object_item/get_object_item_cv", "cJSON_ReplaceItemViaPointer"],
+  note="aliasing precondition: the key argument may be the replacement's own key")
